@@ -826,6 +826,22 @@ def case_stream(c):
     own2 = 0.0
     sources = []
     n = c['n']
+    if c.get('custom_first'):
+        # the documented custom-source workflow: a noise-like custom signal, its level measured by update_noise, then
+        # built-in noise sources on top -- every one of them adds in quadrature to what is there
+        st.add_signal(lambda ts: 2.0 * np.sin(1.0e3 * np.asarray(ts) * np.asarray(ts) + 0.3))
+        st.update_noise(stats_calc_num_samples=64)
+        own2 = float(st.noise_std) ** 2
+        if not own2 > 0:
+            V('update_not_replacing', 'update_noise on a stream with a custom source left noise_std = %r' % st.noise_std, site='DataStream.update_noise')
+        for j, (mu, sd) in enumerate(c['seq']):
+            st.add_noise(mu, sd)
+            own2 += sd * sd
+            if not close(st.noise_std, np.sqrt(own2), REL_ID) or not close(st.get_total_noise_std(), np.sqrt(own2), REL_ID):
+                V('not_quadrature', 'custom source measured by update_noise, then %d add_noise calls %s: noise_std=%r, total %r, root-sum-square %r'
+                  % (j + 1, c['seq'][:j + 1], float(st.noise_std), float(st.get_total_noise_std()), np.sqrt(own2)))
+                break
+        return {'viol': viol, 'outcomes': ['stream/custom/%d' % len(c['seq'])], 'nontrivial': [engine.sha(c)] if c['seq'] else []}
     for j, (mu, sd) in enumerate(c['seq']):
         st.add_noise(mu, sd)
         sources.append((mu, sd))
@@ -1050,6 +1066,8 @@ def run(ctx):
     for d in range(1, sdepth + 1):
         for seq in itertools.product(V_NOISE, repeat=d):
             scases.append(dict(seq=[list(s) for s in seq], sample_rate=3e9 if d % 2 else 48e3, n=16, m=24, seed=seed))
+            if d <= 2:
+                scases.append(dict(seq=[list(s) for s in seq], sample_rate=48e3, n=16, m=24, seed=seed, custom_first=True))
     ctx.pmap(case_stream, scases)
     acases = []
     cfgs = [(1, 1, 3), (1, 2, 3), (2, 1, 3), (2, 2, 3), (3, 2, 2)] if not thorough else \
